@@ -19,9 +19,11 @@ def US.save (us : US) : US :=
 /-- `create_new_and_save` -/
 def createNewAndSave (d : Disk) (version : String) : US :=
   let us : US := { pm := PM.new d, ss := { version := version, events := [] } }
-  let us := us.save
-  -- "Ensure we clear any patch data if we're creating a new state."
-  { us with pm := us.pm.reset.1 }
+  -- "Ensure we clear any patch data if we're creating a new state", BEFORE the new release
+  -- version is recorded (a process death in between must not leave the old patches under the
+  -- new version)
+  let us : US := { us with pm := us.pm.reset.1 }
+  us.save
 
 /-- `load_or_new_on_error` (runs at the start of every critical section). -/
 def loadOrNew (d : Disk) (version : String) : US :=
